@@ -27,7 +27,7 @@ CONFIGS = {
 # Steering around the known findings (known_findings.json) so that exploration continues past them; each
 # known finding keeps a dedicated probe (run_probes) that confirms it is still present.
 STEER = {
-    "kotlin": dict(opt_slices=False, callbacks=False),
+    "kotlin": dict(opt_slices=False, cb_struct_methods_only=True, cb_rate=4),
     "js": dict(err_custom_only=True),
     "demo_gen": dict(err_custom_only=True),
     "dart": dict(no_byte_slices=True),
